@@ -22,11 +22,15 @@ def _nondet_real(tag):
 
 
 def _isfinite(I, args, kw):
-    # reals are always finite under A-REAL
-    return VBool(True)
+    # reals are always finite under A-REAL; the python-side constant VNaN is the one non-finite float
+    return VBool(not isinstance(args[0], VNaN))
 
 
 def _isnan(I, args, kw):
+    return VBool(isinstance(args[0], VNaN))
+
+
+def _isinf(I, args, kw):
     return VBool(False)
 
 
@@ -237,10 +241,16 @@ def _json_dumps(I, args, kw):
     """json.dumps(x, **opts) without `indent`: a deterministic uninterpreted function of (x, opts) into strings.
     Trusted fact: the output contains no raw LF / CR (control characters inside strings are escaped)."""
     x = args[0]
-    if isinstance(x, VDictRec):
-        raise Unsupported("json.dumps of a literal dict")
     tag = _dumps_tag(kw)
-    t = typeof(x)
+    try:
+        t = typeof(x)
+    except TypeError:
+        # a value with no single encoding (literal dict of mixed values, heap objects): an arbitrary string per call
+        # (sound over-approximation of a deterministic function whose argument is not tracked), still without raw LF/CR
+        r = I.path.fresh("json_dumps_opaque", z3.StringSort())
+        I.path.assume(z3.And(z3.Not(z3.Contains(r, z3.StringVal("\n"))), z3.Not(z3.Contains(r, z3.StringVal("\r")))))
+        I.ver.note_assumption("json.dumps of an untracked python value: arbitrary string without raw LF/CR")
+        return VStr(r)
     nm = "json_dumps<%s>_%s" % (tag, "".join(c if c.isalnum() else "_" for c in t.name))
     f = z3.Function(nm, t.sort(), z3.StringSort())
     r = f(unwrap(x, t))
@@ -435,6 +445,51 @@ def _thread_pool_executor(I, args, kw):
     return B.VExt("ThreadPoolExecutor", {"submit": VFunc("builtin", "submit", impl=_tpe_submit), "shutdown": noop})
 
 
+def _hashlib_new(algo):
+    """Trusted model of hashlib.<algo>([data]): a hash object whose `hexdigest()` / `digest()` is an *uninterpreted
+    deterministic function* (`uf_<algo>_hex`, spec name `<algo>_hex`) of the concatenation of everything passed to the constructor and to
+    `update()` so far (bytes are modelled as the text they encode, see str.encode).  Nothing else is assumed (no
+    collision freedom, no length): equal inputs give equal digests, and the digest depends on nothing but the bytes fed
+    in.  `update` accepts bytes only (a str argument raises TypeError as in CPython is not modelled: every caller in
+    /repo passes `.encode(...)` results or bytes literals)."""
+    def f(I, args, kw):
+        state = {"buf": z3.StringVal("")}
+        # same symbol as the spec-level `R.uf("<algo>_hex", ["str"], "str")` (verifier.spec_name prefixes "uf_")
+        hexfn = z3.Function("uf_%s_hex" % algo, z3.StringSort(), z3.StringSort())
+        rawfn = z3.Function("uf_%s_raw" % algo, z3.StringSort(), z3.StringSort())
+
+        def feed(v):
+            v = I.force(v) if not I.spec else v
+            if not isinstance(v, VStr):
+                raise Unsupported("hashlib update with a non-bytes value (%s)" % type(v).__name__)
+            state["buf"] = z3.simplify(z3.Concat(state["buf"], v.e))
+
+        def update(I2, a, k):
+            feed(a[0])
+            return VNone()
+
+        def hexdigest(I2, a, k):
+            return VStr(hexfn(state["buf"]))
+
+        def digest(I2, a, k):
+            return VStr(rawfn(state["buf"]))
+        if args:
+            feed(args[0])
+        I.ver.note_assumption("hashlib.%s is an uninterpreted deterministic function of the bytes fed to it" % algo)
+        return VObj("hashlib.%s" % algo, {"update": VFunc("builtin", "update", impl=update),
+                                           "hexdigest": VFunc("builtin", "hexdigest", impl=hexdigest),
+                                           "digest": VFunc("builtin", "digest", impl=digest)}, None)
+    return f
+
+
+def _deepcopy(I, args, kw):
+    """copy.deepcopy(x): assumed contract = a structurally equal value sharing no mutable part with x.
+    Only modelled for the python-side JSON model (JObj trees), literal dicts and encodable containers."""
+    from . import jsontree
+    I.ver.note_assumption("copy.deepcopy returns a structurally equal value with fresh identities (trusted stdlib contract)")
+    return jsontree.deepcopy(I, I.force(args[0]))
+
+
 TABLE = {
     ("numpy", "asarray"): _np_asarray,
     ("collections", "defaultdict"): _defaultdict,
@@ -446,6 +501,8 @@ TABLE = {
     ("numpy", "mean"): _np_mean,
     ("datetime", "timedelta"): _timedelta,
     ("datetime", "now"): _nondet_real("datetime.now"),
+    ("copy", "deepcopy"): _deepcopy,
+    ("hashlib", "sha256"): _hashlib_new("sha256"),
     ("concurrent", "ThreadPoolExecutor"): _thread_pool_executor,
     ("os", "makedirs"): _may_raise_oserror("makedirs"),
     ("os.path", "basename"): _basename,
@@ -458,12 +515,15 @@ TABLE = {
     ("math", "sqrt"): _sqrt,
     ("math", "isfinite"): _isfinite,
     ("math", "isnan"): _isnan,
-    ("math", "isinf"): _isnan,
+    ("math", "isinf"): _isinf,
     ("time", "time"): _nondet_real("time.time"),
     ("time", "perf_counter"): _nondet_real("time.perf_counter"),
     ("time", "monotonic"): _nondet_real("time.monotonic"),
     ("collections", "deque"): B.bi_deque,
 }
+
+from . import ext_listing   # abstract directory listing (snapshot discovery, C06): used only by contracts whose ghost
+                            # state declares `fs_listing` (see external_member)
 
 TYPING = {"Any", "Dict", "List", "Tuple", "Optional", "Callable", "Iterable", "Iterator", "Generic", "TypeVar",
           "Deque", "Hashable", "Protocol", "Literal", "TypedDict", "Union", "Set", "Sequence", "Mapping",
@@ -478,6 +538,9 @@ def _uses_fsmodel(ver):
 
 
 def external_member(ver, modname, attr):
+    cur = getattr(ver, "cur", None)
+    if cur is not None and "fs_listing" in getattr(cur, "ghost", {}) and (modname or "", attr) in ext_listing.TABLE:
+        return VFunc("builtin", "%s.%s" % (modname, attr), impl=ext_listing.TABLE[(modname or "", attr)])
     key0 = (modname.split(".")[0] if modname else "", attr)
     from . import fsmodel
     if _uses_fsmodel(ver):
@@ -491,8 +554,11 @@ def external_member(ver, modname, attr):
         return VModule("os.path", None)
     if modname == "os.path" and ("os.path", attr) in TABLE:
         return VFunc("builtin", "os.path.%s" % attr, impl=TABLE[("os.path", attr)])
+    full = (modname or "", attr)
+    if full in TABLE:
+        return VFunc("builtin", "%s.%s" % full, impl=TABLE[full])
     key = (modname.split(".")[0] if modname else "", attr)
-    if key in TABLE:
+    if key in TABLE and not (modname or "").startswith("os."):
         return VFunc("builtin", "%s.%s" % key, impl=TABLE[key])
     if key in (("datetime", "datetime"), ("datetime", "timezone")):
         # class used as a namespace only: datetime.datetime.now(tz) / datetime.timezone.utc
